@@ -287,11 +287,15 @@ func (c *RemoteClient) Ready(ctx context.Context, nextMessageID uint64) error {
 	logger.InfoWithFields(ctx, []logger.Field{
 		logger.Uint64("next_message_id", nextMessageID),
 	}, "Sending ready message")
+	// The server can start sending as soon as it sees the ready message, so the expected message id
+	// has to be set before the message is written.
+	previousMessageID := c.nextMessageID.Load().(uint64)
+	c.nextMessageID.Store(nextMessageID)
 	if err := c.sendDirect(ctx, &Message{Payload: m}); err != nil {
+		c.nextMessageID.Store(previousMessageID)
 		return err
 	}
 
-	c.nextMessageID.Store(nextMessageID)
 	c.handshakeComplete.Store(true)
 	logger.Info(ctx, "Marked handshake complete")
 	handshakeCompleteChannel := c.handshakeCompleteChannel.Load()
